@@ -45,6 +45,18 @@ fn main() -> anyhow::Result<()> {
             let rows = core::par_cases(a.n, a.seed, |ctx, seed, i| gen_lua::generate(ctx, seed, i, max_blocks));
             core::write_out(&a.out, &rows)
         }
+        Some("linediff") => {
+            // one JSON object {"old", "new"} per line of the given file -> the real line_diff ranges and similar's ops
+            let path = a.rest.first().cloned().unwrap_or_default();
+            let text = std::fs::read_to_string(&path)?;
+            for line in text.lines() {
+                let j: serde_json::Value = serde_json::from_str(line)?;
+                let (old, new) = (j["old"].as_str().unwrap_or(""), j["new"].as_str().unwrap_or(""));
+                let rs: Vec<Vec<usize>> = blockwatch::diff_parser::verif_line_diff(old, new).into_iter().map(|r| vec![r.start, r.end]).collect();
+                println!("{}", serde_json::json!({"ranges": rs, "entry": core::ops_entry(old, new)}));
+            }
+            Ok(())
+        }
         Some("glob") => core::write_out(&a.out, &gen_glob::rows(a.seed, a.n)),
         Some("lookup") => core::write_out(&a.out, &gen_lookup::rows(a.seed, a.n)),
         Some("multi") => {
